@@ -11,7 +11,7 @@ before (the database file itself apart).
 import hashlib
 import os
 
-from .. import gen, qast
+from .. import csvcodec, gen, qast
 from ..common import Scratch, quiet_stdout, rng_for
 from ..core import Violation
 from ..histories import Profile, gen_write_op, getter_probes, query_probes
@@ -141,7 +141,12 @@ def run_history(res, cfg, scratch, rng):
                 out = s.do(op)
                 after = w.snap()
                 res.count(f"ops.{op['op']}")
-                post = s.contents()
+                # state by an independent reader of the file: a peek through the database's own handle would move
+                # its cursor and flush its buffer, and thereby hide what a stale cursor does to the next call
+                try:
+                    post = [p.canon() for p in csvcodec.decode_file(s.path, None, {})]
+                except csvcodec.DecodeError as e:
+                    post = [("BAD", str(e))]
                 if out.exc is not None or post != [p.canon() for p in s.model.points]:
                     res.count("op_itself_misbehaved")
                     if any(x and x[0] == "BAD" for x in post):
@@ -161,6 +166,22 @@ def run_history(res, cfg, scratch, rng):
                                 "file_before": before["file"], "file_after": after["file"], "temp_dir": after["tmp"], "db_dir": after["dbdir"]})
                 if not judge_op(res, s, w, op, before, after, out, noop, label):
                     return
+                # no-op writes issued directly after this op (no read in between)
+                if rng.random() < 0.5:
+                    for nop in rng.sample([
+                        {"op": "insert_multiple", "ps": []},
+                        {"op": "remove", "q": ("cmp", "tags", ("nokey",), "==", "zz")},
+                        {"op": "update", "q": ("noop", "measurement"), "args": {"unset_tags": "no-such-key"}},
+                        {"op": "drop_measurement", "name": "never-a-measurement"},
+                        {"op": "reindex"},
+                        {"op": "update", "q": ("cmp", "tags", ("nokey",), "==", "zz"), "args": {"tags": {"static": {"a": "b"}}}},
+                    ], 2):
+                        before = w.snap()
+                        nout = s.do(nop)
+                        after = w.snap()
+                        res.count("noop_writes_directly_after_an_op")
+                        if not judge_op(res, s, w, nop, before, after, nout, True, "noop-write"):
+                            return
                 # operations that raise must not leave anything behind either, nor change the file
                 if rng.random() < 0.35:
                     for label_, call in rng.sample(raising_calls(), 3):
@@ -181,7 +202,10 @@ def run_history(res, cfg, scratch, rng):
                         res.count("listing_checks_after_raising_call")
                         if not judge_op(res, s, w, fop, before, after, fake, False, "raised"):
                             return
-                # reads
+                # reads (not after every op: a write directly following a rewrite sees the handle as the rewrite left it)
+                if rng.random() < 0.4:
+                    res.count("steps_without_reads")
+                    continue
                 probes = query_probes(rng, s.model, prof)[:10] + getter_probes(rng, s.model, prof)[:12]
                 for p in probes:
                     before = w.snap()
